@@ -431,6 +431,62 @@ func runC17(c *Ctx) {
 			c.Nontrivial(1)
 		}
 	}
+	// larger sets (binary-search and fast-path thresholds): a pool of structured sets with up to 70 elements
+	var pool [][]int
+	for _, n := range []int{0, 1, 7, 8, 9, 15, 16, 17, 31, 32, 33, 64, 70} {
+		for _, f := range []func(i int) int{
+			func(i int) int { return i },
+			func(i int) int { return 2 * i },
+			func(i int) int { return 2*i + 1 },
+			func(i int) int { return i*i - 50 },
+			func(i int) int { return i + n },
+			func(i int) int { return 3*i - n },
+		} {
+			set := make([]int, n)
+			for i := range set {
+				set[i] = f(i)
+			}
+			pool = append(pool, set)
+		}
+	}
+	c.parFor(int64(len(pool)), 1, func(lo, hi int64) {
+		for _, a := range pool[lo:hi] {
+			for _, b := range pool {
+				for _, fn := range []string{"Union", "Intersection", "IntersectionSize", "SetMinus", "XOR", "ContainsSorted", "UnionMethod"} {
+					for _, ca := range []int{0, len(b)} {
+						if ca != 0 && fn != "UnionMethod" {
+							continue
+						}
+						sc := siCase{Fn: fn, A: a, B: b, CapA: ca}
+						c.Check(func() *Failure { return evalSI(sc) })
+						c.Nontrivial(1)
+					}
+				}
+			}
+			for _, x := range []int{-51, -1, 0, 1, 16, 31, 32, 63, 64, 69, 140, 4711} {
+				for _, fn := range []string{"Remove", "ContainsSingle"} {
+					sc := siCase{Fn: fn, A: a, X: x}
+					c.Check(func() *Failure { return evalSI(sc) })
+				}
+			}
+			for _, n := range []int{0, 16, 33, 64, 100} {
+				sc := siCase{Fn: "Complement", A: a, N: n}
+				c.Check(func() *Failure { return evalSI(sc) })
+			}
+			for _, args := range [][]int{{}, {5}, {64, -7, 64}, append(append([]int{}, a...), 1, 3, 1000), {100, 99, 98, 97, 96, 95, 94, 93, 92, 91, 90, 89, 88, 87, 86, 85, 84}} {
+				sc := siCase{Fn: "Add", A: a, Args: args, CapA: len(args)}
+				c.Check(func() *Failure { return evalSI(sc) })
+				sc2 := siCase{Fn: "NewSortedInts", Args: append(append([]int{}, args...), a...)}
+				c.Check(func() *Failure { return evalSI(sc2) })
+			}
+		}
+	})
+	c.SetCount("large_set_pool", int64(len(pool)))
+	// Range with larger spans and steps
+	for _, rc := range []rangeCase{{0, 100, 1}, {0, 100, 7}, {100, 0, -7}, {-50, 50, 13}, {50, -50, -13}, {0, 1000, 999}, {0, 1000, 1000}, {0, 1000, 1001}, {1000, 0, -1000}, {1000, 0, -1001}, {7, 8, 1}, {8, 7, -1}} {
+		rc := rc
+		c.Check(func() *Failure { return evalRange(rc) })
+	}
 	// variadic argument lists
 	var lists [][]int
 	var rec func(cur []int, l int)
